@@ -6,6 +6,8 @@ fn lookup(prop: &str) -> Option<Box<dyn Engine>> {
         "C13" => Some(Box::new(CollEngine { prop: "C13" })),
         "C14" => Some(Box::new(CollEngine { prop: "C14" })),
         "C15" => Some(Box::new(CollEngine { prop: "C15" })),
+        "C17" => Some(Box::new(vlib::box_eng::C17Engine)),
+        "C16" => Some(Box::new(vlib::c16::C16Engine::new())),
         _ => None,
     }
 }
